@@ -656,3 +656,6 @@ _bind("string", [(r"\bstring_literal\b", "${LIT}")], {"LIT": (r"let mut (\w+) = 
 for _it in UNIT["items"]:
     if _it.get("kind") == "auto_pure_fns":
         _it["spec_names"] = {"is_identifier_initial": "is_initial"}
+_bind("number", [(r"\bnumber_literal\b", "${LIT}"), (r"seq!\[c\]", "seq![${CUR}]"), (r"Some\(c\)", "Some(${CUR})"),
+                 (r"push\\\(c\\\)", r"push\\(${CUR}\\)")],
+      {"LIT": (r"let mut (\w+) = String::new\(\);", "number_literal"), "CUR": _CUR})
